@@ -12,7 +12,7 @@ META = {
              'ast.unparse(edited) parses and round-trips (the user\'s AST denotes valid Python). Oracle: reconcile does not raise; C01 oracle on the result; '
              'dump(ast.parse(out.src)) == dump(ast.parse(ast.unparse(edited))); zero mutations => out.src == marked source; statements whose subtree and ancestors\' other '
              'fields were not touched keep their own text (modulo uniform re-indent) incl. trailing line comment and the comment block directly above. '
-             'A cell is (mutation kinds of the round, host node classes).'),
+             'A cell is (mutation kinds of the round, host node classes). Further mutation kinds: two statements of another FST tree placed side by side (consecutive siblings or same parent but different list fields), ImportFrom.level, comprehension.is_async, Constant.kind, identifiers held as strings (alias/arg/attr/keyword/def/handler/module names), operators; reconcile() is called under randomly chosen ambient thread options that it pins itself (pars, norm, trivia, coerce ...). The edited AST must also be expressible (parse(unparse(edited)) == edited).'),
     'budget': {'quick': 45, 'thorough': 900},
     'floors': {'quick': {'rounds_judged': 2500, 'mutations_applied': 4000, 'untouched_statements_checked': 4000},
                'thorough': {'rounds_judged': 60000, 'mutations_applied': 100000, 'untouched_statements_checked': 100000}},
